@@ -70,6 +70,19 @@ Proof.
   apply (lfind_Some t_addr l _ t (Hiv c l El)) in Hf as [_ E]. exact E.
 Qed.
 
+Definition tsub (c o : gmap N (list tfront)) : Prop := forall k t, tabs c k = Some t -> tabs o k = Some t.
+Definition tgO (o : gmap N (list tfront)) : Prop :=
+  forall c1 c2 a t1 t2, tabs o (c1, a) = Some t1 -> tabs o (c2, a) = Some t2 -> c1 = c2.
+
+Lemma gInvT_tgO m : tIv m -> gInvT m -> tgO m.
+Proof.
+  intros Hiv Hg c1 c2 a t1 t2 H1 H2.
+  pose proof (tabs_addr m c1 a t1 Hiv H1) as E1. pose proof (tabs_addr m c2 a t2 Hiv H2) as E2.
+  rewrite <- E1 in H1. rewrite <- E2 in H2.
+  apply (tabs_pair m c1 t1 Hiv) in H1 as [l1 [L1 I1]]. apply (tabs_pair m c2 t2 Hiv) in H2 as [l2 [L2 I2]].
+  apply (Hg c1 c2 l1 l2 t1 t2 L1 L2 I1 I2). congruence.
+Qed.
+
 Section tfronts.
   Variable fingerprint : N -> option N.
   Variable inames : N -> option (list N).
@@ -105,39 +118,49 @@ Section tfronts.
         * rewrite lookup_insert_ne by congruence. reflexivity.
   Qed.
 
-  Lemma chunk_add_tfront (ck : N * N) (t : tfront) s c :
-    tIv c -> (t_addr t = snd ck /\ tabs c ck = None) ->
-    exists c', replay [RAddTFront udp (fst ck) t] (set_t udp s c) = (set_t udp s c', 0%nat) /\ tIv c'
+  Lemma chunk_add_tfront (other : gmap N (list tfront)) (HgO : tgO other) (ck : N * N) (t : tfront) s c :
+    (tIv c /\ tsub c other) -> (t_addr t = snd ck /\ tabs c ck = None /\ tabs other ck = Some t) ->
+    exists c', replay [RAddTFront udp (fst ck) t] (set_t udp s c) = (set_t udp s c', 0%nat) /\ (tIv c' /\ tsub c' other)
                /\ forall b, tabs c' b = fun_alter (fun _ => Some t) ck (tabs c) b.
   Proof.
-    intros Hiv [Ha Hn]. destruct ck as [cl a]. cbn [fst snd] in *. subst a.
+    intros [Hiv Hsub] [Ha [Hn Ho]]. destruct ck as [cl a]. cbn [fst snd] in *. subst a.
     assert (Hnin : t_addr t ∉ (t_addr <$> default [] (c !! cl))).
     { unfold labs in Hn. cbn [fst snd] in Hn. destruct (c !! cl) as [l|]; cbn; [apply lfind_None in Hn; exact Hn|apply not_elem_of_nil]. }
-    cbn [Model.replay Model.dispatch]. unfold add_tfront. rewrite Hget. rewrite bool_decide_eq_false_2 by exact Hnin. rewrite Hset.
-    eexists. split; [reflexivity|]. split.
-    - intros c2 l2 H2. destruct (decide (c2 = cl)) as [->|Hne].
-      + rewrite lookup_insert in H2. inversion H2; subst. rewrite fmap_app. apply NoDup_app. split; [|split].
-        * destruct (c !! cl) as [l|] eqn:El; cbn; [eapply Hiv; eauto|constructor].
-        * intros y Hy Hy'. cbn in Hy'. apply elem_of_list_singleton in Hy'. subst y. apply Hnin. exact Hy.
-        * cbn. apply NoDup_singleton.
-      + rewrite lookup_insert_ne in H2 by congruence. eapply Hiv; eauto.
-    - intros [c2 a2]. unfold fun_alter, labs. cbn [fst snd]. destruct (decide ((c2, a2) = (cl, t_addr t))) as [E|Hne].
+    assert (Hel : addr_elsewhere c cl (t_addr t) = false).
+    { apply addr_elsewhere_false. intros c' l' Hne Hl' Hin. apply Hne.
+      apply elem_of_list_fmap in Hin as [t' [Et Ht']].
+      assert (Hc' : tabs c (c', t_addr t) = Some t').
+      { unfold labs. cbn [fst snd]. rewrite Hl'. apply lfind_Some; [eapply Hiv; eauto|split; [exact Ht'|symmetry; exact Et]]. }
+      apply Hsub in Hc'. exact (HgO c' cl (t_addr t) t' t Hc' Ho). }
+    cbn [Model.replay Model.dispatch]. unfold add_tfront. rewrite Hget, Hel. rewrite bool_decide_eq_false_2 by exact Hnin. rewrite Hset.
+    assert (Habs : forall b, tabs (<[cl:=default [] (c !! cl) ++ [t]]> c) b = fun_alter (fun _ => Some t) (cl, t_addr t) (tabs c) b).
+    { intros [c2 a2]. unfold fun_alter, labs. cbn [fst snd]. destruct (decide ((c2, a2) = (cl, t_addr t))) as [E|Hne].
       + inversion E; subst. rewrite lookup_insert, lfind_snoc.
         assert (Hl : lfind t_addr (default [] (c !! cl)) (t_addr t) = None) by (apply lfind_None; exact Hnin).
         rewrite Hl, bool_decide_eq_true_2 by reflexivity. reflexivity.
       + destruct (decide (c2 = cl)) as [->|Hc].
         * rewrite lookup_insert, lfind_snoc. rewrite bool_decide_eq_false_2 by congruence.
           destruct (c !! cl) as [l|]; [change (default [] (Some l)) with l; destruct (lfind t_addr l a2); reflexivity|reflexivity].
-        * rewrite lookup_insert_ne by congruence. reflexivity.
+        * rewrite lookup_insert_ne by congruence. reflexivity. }
+    eexists. split; [reflexivity|]. split; [split|exact Habs].
+    - intros c2 l2 H2. destruct (decide (c2 = cl)) as [->|Hne].
+      + rewrite lookup_insert in H2. inversion H2; subst. rewrite fmap_app. apply NoDup_app. split; [|split].
+        * destruct (c !! cl) as [l|] eqn:El; cbn; [eapply Hiv; eauto|constructor].
+        * intros y Hy Hy'. cbn in Hy'. apply elem_of_list_singleton in Hy'. subst y. apply Hnin. exact Hy.
+        * cbn. apply NoDup_singleton.
+      + rewrite lookup_insert_ne in H2 by congruence. eapply Hiv; eauto.
+    - intros k t0. rewrite Habs. unfold fun_alter. destruct (decide (k = (cl, t_addr t))) as [->|Hk].
+      + intros E. inversion E; subst. exact Ho.
+      + apply Hsub.
   Qed.
 
   Definition treshape (x : N * tfront) : (N * N) * tfront := ((fst x, t_addr (snd x)), snd x).
 
   Theorem piece_tfronts my other s :
-    get_t udp s = my -> tIv my -> tIv other ->
+    get_t udp s = my -> tIv my -> tIv other -> gInvT other ->
     exists c', replay (diff_tfronts udp my other) s = (set_t udp s c', 0%nat) /\ tIv c' /\ forall k, tabs c' k = tabs other k.
   Proof.
-    intros Hmy Hivm Hivo. unfold diff_tfronts.
+    intros Hmy Hivm Hivo Hgo. pose proof (gInvT_tgO other Hivo Hgo) as HgO. unfold diff_tfronts.
     set (rm := List.filter (fun ct : N * tfront => negb (has_tfront other ct)) (dedup_t (tfront_pairs my))).
     set (ad := List.filter (fun ct : N * tfront => negb (has_tfront my ct)) (dedup_t (tfront_pairs other))).
     assert (Hhas : forall m c t, tIv m -> (has_tfront m (c, t) = true <-> tabs m (c, t_addr t) = Some t)).
@@ -190,12 +213,16 @@ Section tfronts.
       - rewrite apply_f_notin; [exact Em|]. intros Hin. apply elem_of_list_fmap in Hin as [[[c' a'] t'] [E Hin]].
         cbn in E. inversion E; subst. apply elem_of_list_In, Hinr in Hin as [Hin Ea']. apply Hrm in Hin as [H1 _].
         rewrite Ea' in H1. congruence. }
-    destruct (replay_chunks_abs fingerprint inames hc_valid steps (set_t udp) tabs tIv
+    assert (Hsub1 : tsub c1 other).
+    { intros [c a] t. rewrite Hc1. destruct (tabs my (c, a)) as [tm|]; [|discriminate].
+      destruct (decide (tabs other (c, a) = Some tm)) as [E|E]; [|discriminate]. intros E'. inversion E'; subst. exact E. }
+    destruct (replay_chunks_abs fingerprint inames hc_valid steps (set_t udp) tabs (fun c => tIv c /\ tsub c other)
                 (fun (ck : N * N) (t : tfront) => [RAddTFront udp (fst ck) t]) (fun _ t _ => Some t)
-                (fun ck t o => t_addr t = snd ck /\ o = None)
-                chunk_add_tfront (treshape <$> ad) c1 s Hiv1 Hndad) as (c2 & Hr2 & Hiv2 & Ha2).
+                (fun ck t o => t_addr t = snd ck /\ o = None /\ tabs other ck = Some t)
+                (chunk_add_tfront other HgO) (treshape <$> ad) c1 s (conj Hiv1 Hsub1) Hndad) as (c2 & Hr2 & [Hiv2 _] & Ha2).
     { intros [c a] t Hin. apply Hinr in Hin as [Hin Ea]. apply Had in Hin as [Ho Hm]. split; [exact Ea|].
-      rewrite Hc1. rewrite Ea in Ho, Hm. destruct (tabs my (c, a)) as [tm|]; [|reflexivity].
+      rewrite Ea in Ho, Hm. split; [|exact Ho].
+      rewrite Hc1. destruct (tabs my (c, a)) as [tm|]; [|reflexivity].
       rewrite decide_False; [reflexivity|]. intros E. apply Hm. congruence. }
     exists c2. split; [rewrite replay_app, Hmaprm, Hmapad; rewrite Es at 1; rewrite Hr1, Hr2; reflexivity|].
     split; [exact Hiv2|]. intros [c a]. rewrite Ha2.
